@@ -107,7 +107,12 @@ def run_case(rng, idx, tier):
     try:
         tm = UrdfTransformManager()
         tm.load_urdf(urdf)
-        bvh = BoundingVolumeHierarchy(tm, "robot")
+        # documented optional argument: pose of the base frame in the world ("origin"); re-posed during the history
+        base_moves = bool(rng.random() < 0.5)
+        if base_moves:
+            bvh = BoundingVolumeHierarchy(tm, "robot", np.ascontiguousarray(O.pose(gen.rand_rot(rng), rng.normal(size=3) * sc)))
+        else:
+            bvh = BoundingVolumeHierarchy(tm, "robot")
         bvh.fill_tree_with_colliders(tm, make_artists=False, fill_self_collision_whitelists=True)
     except Exception as e:  # noqa: BLE001
         fail("setup-exception", "building the BVH from the URDF raised %s: %s" % (type(e).__name__, str(e)[:200]), exc=type(e).__name__)
@@ -152,6 +157,8 @@ def run_case(rng, idx, tier):
                 if typ != "fixed" and rng.random() < 0.7:
                     v = float(rng.uniform(lo, hi)) if rng.random() < 0.8 else float(rng.choice([lo, hi, 0.0]))
                     tm.set_joint(jn, v)
+            if base_moves and rng.random() < 0.3:
+                tm.add_transform("robot", "origin", O.pose(gen.rand_rot(rng), rng.normal(size=3) * sc))
             for frame, parent, spec in extras:
                 if rng.random() < 0.3:
                     tm.add_transform(frame, parent, O.pose(gen.rand_rot(rng), rng.normal(size=3) * sc * 0.5))
